@@ -1,9 +1,13 @@
 HARNESSES = {}
 for _g in range(1, 7):
     HARNESSES["c15_g%d" % _g] = {"src": ["harness/c15.cc"], "variant": "prod", "flags": ["-DVF_GROUP=%d" % _g], "opt": ["-O1", "-DNDEBUG=1"]}
+# groups 7.. : adapters of engine/classes_c15x.hh (rows, matrices, intervals, further shapes / powersets / products, solver trees)
+_XGROUPS = [7]
+for _g in _XGROUPS:
+    HARNESSES["c15_g%d" % _g] = {"src": ["harness/c15.cc"], "variant": "prod", "flags": ["-DVF_GROUP=%d" % _g] + NOAC, "opt": ["-O1", "-DNDEBUG=1"]}
 
 def _runs(tier):
     d = "2" if tier == "quick" else "3"
-    return [{"harness": "c15_g%d" % g, "args": ["--depth", d], "budget": 240 if tier == "quick" else 2400} for g in range(1, 7)]
+    return [{"harness": "c15_g%d" % g, "args": ["--depth", d], "budget": 240 if tier == "quick" else 2400} for g in list(range(1, 7)) + _XGROUPS]
 
 CHECKS = {"C15": {"runs": _runs, "level": "model_checking", "parallel_runs": 3, "deadline": {"quick": 280, "thorough": 2700}}}
